@@ -489,6 +489,15 @@ class Ledger:
                     msg = "message %d left the queue; recipient %r failed permanently (%r) but no bounce naming it was queued" % (n, o["addr"], o["text"][:60])
                     res.v("C03", msg)
                     res.v("C14", msg)
+                    res.v("C14-owed", msg)         # the C14 clause that stays sound across a crash (image kept) and restart
+        # nothing of a departed message may stay behind: a bounce record that outlives its message (e.g. of a discarded double bounce)
+        # would be taken for the record of the next message that is given the same number - a notice about somebody else's failure
+        snap_end, _bad, _pids = self.w.h.snapshot()
+        for n, files in snap_end.items():
+            if files == {"bounce"}:
+                msg = "bounce/%d is still there although message %d has left the queue (state 'bounce only' is none of S1-S5; the next message numbered %d inherits the record)" % (n, n, n)
+                res.v("C02", msg)
+                res.v("C14", msg)
         # at most 2 daemon-queued messages per original in fault-free histories (C14)
         if not self.fault_or_crash and not self.disorder:
             for n, m in self.msgs.items():
@@ -1059,5 +1068,6 @@ def check_retry_schedule(sc, led, res):
                     res.classes.add("known_term_during_open_pass")
                 else:
                     res.v("C15", msg)
+                    res.v("C15-early", msg)        # the clause that stays sound under a single injected I/O failure
             if due <= prev["start"]:
                 res.v("C15", "retry time %d is not in the future of the pass start %d" % (due, prev["start"]))
